@@ -391,6 +391,23 @@ Theorem C08_projection_ok_sound : forall shape ranks X core fs tol, projection_o
 Proof. exact projection_ok_sound. Qed.
 Print Assumptions C08_projection_ok_sound.
 
+(* the same for complex data over the Gaussian rationals: M^H M = I and core = X x_k U_k^H (conjugate transpose), real and
+   imaginary parts within the tolerance *)
+Theorem C08_corth_ok_sound : forall k M tol, corth_ok k M tol = true ->
+  forall a b, a < k -> b < k ->
+  (Qabs.Qabs (fst (csub (cgram_entry k M a b) (cdelta a b))) <= tol)%Q /\ (Qabs.Qabs (snd (csub (cgram_entry k M a b) (cdelta a b))) <= tol)%Q.
+Proof. exact corth_ok_sound. Qed.
+Print Assumptions C08_corth_ok_sound.
+Theorem C08_cprojection_ok_sound : forall shape ranks X core fs tol, cprojection_ok shape ranks X core fs tol = true ->
+  length core = prod ranks /\
+  forall j, j < prod ranks ->
+    (Qabs.Qabs (fst (csub (cproject_entry shape ranks X fs j) (nth j core c0))) <= tol)%Q /\
+    (Qabs.Qabs (snd (csub (cproject_entry shape ranks X fs j) (nth j core c0))) <= tol)%Q.
+Proof. exact cprojection_ok_sound. Qed.
+Print Assumptions C08_cprojection_ok_sound.
+Example C08_cproject_conj_ex : cproject_entry [1] [1] [(0, 1)%Q] [[(0, 1)%Q]] 0 = (1, 0)%Q.   (* i * conj(i) = 1, not i * i = -1 *)
+Proof. exact cproject_conj_ex. Qed.
+
 (* ================================================================== canonical form over R *)
 Local Open Scope R_scope.
 
